@@ -79,3 +79,11 @@ Print Assumptions initial_pressure_consistent.
 
 Example cycle_witness : 0 < 2 /\ 0 < 2500 /\ 10 <= 100.
 Proof. lra. Qed.
+
+(* a cell found below its minimum volume by the force phase is not in the population when the next iteration starts (the
+   removal is the last population change of the iteration: order read from src/solver.cpp, Properties_C08) *)
+From SC Require Import Population IterationDefs Iteration IterationProofs.
+Theorem below_minimum_cells_are_gone_after_the_iteration : forall (inp : inputs) (s : istate) (i : N),
+  In i (in_below inp) -> ~ In i (ids (i_pop (run_iteration documented_order inp s))).
+Proof. exact below_min_cells_gone. Qed.
+Print Assumptions below_minimum_cells_are_gone_after_the_iteration.
